@@ -127,6 +127,46 @@ def _generate(args: Any) -> Optional[Dict[str, Any]]:
     return {"what": what, "accepted": True}
 
 
+DIAMOND = '''\
+@abstract
+@invariant(lambda self: len(self.name) >= 1, "Name non-empty")
+class Root(DBC):
+    """Represent a root."""
+
+    name: str
+    """Name"""
+
+    def __init__(self, name: str) -> None:
+        self.name = name
+
+
+@abstract
+class Left(Root):
+    """Represent left."""
+
+    def __init__(self, name: str) -> None:
+        Root.__init__(self, name)
+
+
+@abstract
+class Right(Root):
+    """Represent right."""
+
+    def __init__(self, name: str) -> None:
+        Root.__init__(self, name)
+
+
+class Bottom(Left, Right):
+    """Represent bottom."""
+
+    def __init__(self, name: str) -> None:
+        Left.__init__(self, name)
+
+
+__version__ = "dummy"
+__xml_namespace__ = "https://dummy.com"
+'''
+
 ARG_TYPES = ["int", "str", "List[Item]", "float", "bool"]
 
 
@@ -196,6 +236,7 @@ def sweep(seed: int = 0, stride: int = 4, max_classes: int = 3, jobs: int = 16, 
             tasks.append((f"hierarchy {shape}", text, TARGETS))
     for what, text in signature_models():
         tasks.append((what, text, TARGETS))
+    tasks.append(("diamond with a length constraint on the shared property", DIAMOND, TARGETS))
     # texts that are hostile for literals / comments and constants of every primitive type (native/c20java.py)
     from native import c20java
     for ascii_only in (False, True):
